@@ -28,11 +28,11 @@ pub fn build_ok(text: &str) -> Option<Glob<'_>> {
 }
 
 pub fn dfa_of_glob(g: &Glob<'_>) -> Result<Dfa, String> {
-    Dfa::new(g.verif_program_text())
+    Dfa::new_search(g.verif_program_text())
 }
 
 pub fn dfa_of_any(a: &Any<'_>) -> Result<Dfa, String> {
-    Dfa::new(a.verif_program_text())
+    Dfa::new_search(a.verif_program_text())
 }
 
 /// Replays the access string of every explored state through the real matchers and compares
